@@ -152,11 +152,17 @@ pub fn check_case(c0: &Case) -> Verdict {
         let mut recs = Vec::with_capacity(c0.recs.len() * c0.copies);
         for i in 0..c0.copies {
             for r in &c0.recs {
-                recs.push(Rec { id: format!("{}_{}", r.id, i), desc: r.desc.clone(), seq: r.seq.clone() });
+                if c0.copies <= 4 {
+                    let seq = if c0.copies == 4 && i % 2 == 1 { crate::model::revcomp_text(&r.seq.0) } else { r.seq.0.clone() };
+                    recs.push(Rec { id: r.id.clone(), desc: r.desc.clone(), seq: crate::util::Bytes(seq) });
+                } else {
+                    recs.push(Rec { id: format!("{}_{}", r.id, i), desc: r.desc.clone(), seq: r.seq.clone() });
+                }
             }
         }
         c.recs = recs;
         v.class("replicated-records");
+        v.class_if(c0.copies <= 4, "records-repeated-under-the-same-names");
     }
     if let Some((kind, size)) = c0.tail_block {
         let seq: Vec<u8> = match (kind % 3, c.cmd.sub) {
@@ -448,7 +454,10 @@ impl Leg for Relations {
                     Just(None).boxed()
                 };
                 let copies = match cmd.sub {
-                    Sub::Min | Sub::Oligo | Sub::Cgr => prop_oneof![12 => Just(1usize), 1 => 40usize..=120, 1 => 200usize..=400].boxed(),
+                    // 2 and 4: the file concatenated with itself under the same names (4: every other copy reverse-complemented,
+                    // mates of one name)
+                    Sub::Min => prop_oneof![10 => Just(1usize), 2 => Just(2usize), 2 => Just(4usize), 1 => 40usize..=120, 1 => 200usize..=400].boxed(),
+                    Sub::Oligo | Sub::Cgr => prop_oneof![12 => Just(1usize), 1 => 40usize..=120, 1 => 200usize..=400].boxed(),
                     _ => Just(1usize).boxed(),
                 };
                 // an earlier command with the same kind of output location (file / directory)
